@@ -130,11 +130,49 @@ def conv_list(thorough):
     return q + (x if thorough else []), x
 
 
+def c_kind(v):
+    """the static pair slice used over a dimension whose pattern entry is `v`: [1, v) for a static extent v >= 1, the empty
+    [0, 0) for v == 0, [1, 3) over a dynamic extent (valid for the run-time extents 3 and 4)"""
+    if v < 0:
+        return "C1_3"
+    return "C0_0" if v == 0 else "C1_%d" % v
+
+
 def sub_list():
-    """(index type, pattern, keep mask) for submdspan_extents: every mask of full_extent / index slices"""
+    """(index type, pattern, slice kinds) for submdspan_extents: every mask of full_extent (F) / index (I) slices, and
+    vectors with index-pair slices: P etl::pair<T,T>, T etl::tuple<int,long>, A etl::array<T,2> (run-time bounds), M1
+    pair<integral_constant<1>, int> (one static bound), C<lo>_<hi> pair of integral constants (static extent)"""
     pats = [("i32", p) for p in [()] + masks_over([(3,), (2, 3), (2, 3, 4)]) + [(0, 3), (4, 4, 4, 4), (2, -1, 4, -1)]]
     pats += [("u8", (2, -1, 4)), ("i64", (-1, 3)), ("u16", (-1, -1, -1))]
-    return [(it, p, m) for it, p in pats for m in range(2 ** len(p))]
+    out = [(it, p, tuple("F" if (m >> j) & 1 else "I" for j in range(len(p)))) for it, p in pats for m in range(2 ** len(p))]
+    rnd = random.Random(1903)
+
+    def is_pair(k):
+        return k[0] in "PTAMC"
+    # rank 1: every pair kind
+    for p in masks_over([(3,)]) + [(0,)]:
+        for k in ["P", "T", "A", "M1", c_kind(p[0]), "C0_0"]:
+            out.append(("i32", p, (k,)))
+    # rank 2: every vector over F / I / P / C with at least one pair
+    for p in masks_over([(2, 3)]) + [(0, 3)]:
+        for ks in itertools.product("FIPC", repeat=2):
+            ks = tuple(c_kind(v) if k == "C" else k for k, v in zip(ks, p))
+            if any(is_pair(k) for k in ks):
+                out.append(("i32", p, ks))
+    # rank 3 / 4 and the other index types: sampled vectors over all kinds
+    def sample(it, p, n):
+        got = set()
+        while len(got) < n:
+            ks = tuple(c_kind(v) if k == "C" else ("M1" if k == "M" else k) for k, v in zip([rnd.choice("FIPPCTAM") for _ in p], p))
+            if any(is_pair(k) for k in ks):
+                got.add(ks)
+        return [(it, p, ks) for ks in sorted(got)]
+    for p in masks_over([(2, 3, 4)]):
+        out += sample("i32", p, 5)
+    out += sample("i32", (2, -1, 4, -1), 4)
+    for it, p in [("u8", (2, -1, 4)), ("i64", (-1, 3)), ("u16", (-1, -1, -1)), ("i8", (-1, 4))]:
+        out += sample(it, p, 4)
+    return dedup(out)
 
 
 def span_ct_list():
@@ -200,8 +238,16 @@ def emit_inst(f):
     section("C19_CONV", conv_list(True), lambda t: 'C19_CONV("%s<%s:%s<%s", (etl::extents<%s%s>), (etl::extents<%s%s>))\n'
             % (t[0], t[1], pat_str(t[2]), pat_str(t[3]), CTYPE[t[0]], targs(t[2]), CTYPE[t[1]], targs(t[3])))
     f.write("#ifdef C19_SUB\n")
-    for it, p, m in sub_list():
-        f.write('C19_SUB("%s:%s:%d", %d, %s%s)\n' % (it, pat_str(p), m, m, CTYPE[it], targs(p)))
+    def kind_type(k):
+        if k[0] == "C":
+            lo, hi = k[1:].split("_")
+            return "SC<%s, %s>" % (lo, hi)
+        if k[0] == "M":
+            return "SM<%s>" % k[1:]
+        return "S" + k
+    for it, p, ks in sub_list():
+        f.write('C19_SUB("%s:%s:%s", (%s), %s%s)\n' % (it, pat_str(p), ",".join(ks) if ks else "-", ", ".join(kind_type(k) for k in ks),
+                                                      CTYPE[it], targs(p)))
     f.write("#endif\n")
     f.write("#ifdef C19_SPAN\n")
     for se, op, o, c in span_ct_list():
@@ -256,23 +302,36 @@ def make_strides(rnd, ext, exhaustive=False):
 
 
 RULE = ("One `map` case = one extents object (index type, static/dynamic pattern, extents) under one layout "
-        "(left, right, stride, transposed-left, transposed-right), one constructor arity (rank_dynamic or rank values) and "
-        "form (pack, array, span): the line reports every extent, rank/rank_dynamic, required_span_size, every stride, the "
-        "offset of EVERY in-range multi-index, mdspan::size and whether every mdspan / mdarray element reference is the "
+        "(left, right, stride, transposed-left, transposed-right, transposed-stride), one constructor arity (rank_dynamic or "
+        "rank values) and form (pack, array, span): the line reports every extent, rank/rank_dynamic, required_span_size, every "
+        "stride, the offset of EVERY in-range multi-index, mdspan::size, mdspan::extents(), mdarray::size(), empty() of both, "
+        "the six observers (is_always_unique/exhaustive/strided, is_unique/exhaustive/strided) of the mapping with the "
+        "forwards of mdspan / mdarray, and whether every mdspan / mdarray element reference is the "
         "buffer element at that offset (exact-size heap buffer under ASan). Exhaustive: int index type, every pattern with "
         "static values 0..4 and every dynamic value 0..4 for rank 0-3, rank 4 every mask over six static tuples with all "
         "(thorough) or sampled (quick) dynamic values and all 625 all-dynamic shapes; seven other index types int8..uint64 "
         "over all-dynamic rank 0-4 and mixed rank 1-3 patterns, limited to shapes whose size is representable (standard "
         "precondition). Stride mappings: random padded and permuted strides (and unpadded = exhaustive ones) satisfying the "
-        "uniqueness precondition for every such shape; a stride line also reports required_span_size, is_exhaustive, mdarray "
+        "uniqueness precondition for every such shape (rank 2: also as the nested mapping of layout_transpose<layout_stride>); "
+        "a stride line also reports required_span_size, is_exhaustive, mdarray "
         "over the strided mapping, operator== against the layout_left / layout_right mappings of the same extents and "
         "against strided mappings over dextents<int64_t> with equal / different strides, and the strides and extents "
         "produced by the converting constructors; an `ext` line also compares the object with extents of another type "
-        "(equal, one value changed, other rank). `conv`: every (target mask, source mask) pair over seven value vectors, three index type pairs. `span`: "
+        "(equal, one value changed, other rank). `mda`: one line per shape and layout (left, right, stride): every mdarray "
+        "constructor -- (mapping), (extents), (exts...), (mapping|extents, value), (mapping|extents, container const&), "
+        "(mapping|extents, container&&) -- with a static_vector<int,256> and an etl::array<int,260> container; each object is "
+        "reported as container_size / sum of the container / weighted sum of the elements read through operator() at every "
+        "in-range multi-index. `msz`: size / empty / extents of all-dynamic shapes with a zero extent among extents up to "
+        "the maximum of the index type (size representable, partial products not), and of shapes whose size fits size_type "
+        "but not index_type. `sub`: submdspan_extents for every mask of full_extent / index slices over 21 patterns and, with "
+        "index-pair slices (etl::pair, tuple, array<_,2> with run-time bounds; pair of integral constants; one static "
+        "bound), every F/I/P/C vector of rank 1-2 and sampled vectors of rank 3-4, every dynamic value 0..4, all (one pair) or "
+        "sampled lo <= hi <= extent. "
+        "`conv`: every (target mask, source mask) pair over seven value vectors, three index type pairs. `span`: "
         "every (length 0..6, static or dynamic extent, first/last/subspan, run-time and template arguments, offset, count "
         "incl. dynamic_extent) within the preconditions, against std::span. A case is non-trivial when the index space has "
-        "more than one element (map), a dynamic target extent receives a value (conv) or the result is non-empty (span); "
-        "distinct = distinct case text.")
+        "more than one element (map), a dynamic target extent receives a value (conv), a dimension is kept (sub), the container "
+        "is non-empty (mda) or the result is non-empty (span); distinct = distinct case text.")
 ASSUMPTIONS = ["libstdc++ 12 has no <mdspan>: the C++-side oracle is the enumeration order of a C array (row-major = "
                "lexicographic rank, column-major = colexicographic rank) and long-long pointer arithmetic; std::span is the "
                "oracle for span",
@@ -280,7 +339,14 @@ ASSUMPTIONS = ["libstdc++ 12 has no <mdspan>: the C++-side oracle is the enumera
                "mappings the required span size) are representable in index_type; explicit strides satisfy the uniqueness "
                "precondition (a permutation witness is part of the case); span arguments satisfy offset <= size, "
                "count <= size - offset",
-               "element type is int; accessor is default_accessor; mdarray container is static_vector<int,256>"]
+               "element type is int; accessor is default_accessor; mdarray containers are static_vector<int,256> (2048 over "
+               "strided mappings in `map` lines) and etl::array<int,260>; mdarray constructors are exercised for shapes whose "
+               "required_span_size is at most 256 (precondition: the container can hold required_span_size elements)",
+               "submdspan_extents: pair slices satisfy 0 <= lo <= hi <= extent ([mdspan.sub.extents] precondition); "
+               "strided_slice is a static_assert in the library (not provided) and submdspan itself is commented out",
+               "three compile probes (PROBES in checks/props/c19.py) switch constructs whose loss would stop the harness from "
+               "compiling (pair slices, static pair slices, deduction guide mdspan(mdarray)); a failing probe turns the "
+               "affected lines into violations (`nocompile` / `misc=bad`)"]
 TRUSTED = ["hand model Tetl/C19/Model.lean tied to the source by the correspondence run (R1) on every run",
            "spec Tetl/C19/Spec.lean (mixed-radix closed forms) validated against the C-array enumeration oracle and "
            "std::span (R2) on every run"]
@@ -297,9 +363,14 @@ THEOREMS = {
                             "stride_exhaustive_iff_contiguous", "stride_exhaustive_iff_surjective", "stride_exhaustive_std",
                             "mdspan_access_stride_eq", "mdarray_access_stride_eq", "stride_eq_stride",
                             "stride_eq_contiguous", "stride_converting_ctors", "extents_eq_iff", "mdspan_size_empty_eq",
-                            "mdspan_subscript_eq", "mdarray_to_mdspan_eq")],
+                            "mdspan_subscript_eq", "mdarray_to_mdspan_eq", "mdspan_size_empty_std", "mdspan_extents_eq",
+                            "transpose_observers_eq", "transpose_stride_mapping_eq", "transpose_stride_observers_eq",
+                            "mdspan_access_transpose_stride_eq")],
+    "mda": [P + x for x in ("mdarray_ctor_value_eq", "mdarray_ctor_container_eq", "mdarray_ctor_stride_eq",
+                            "mdspan_size_empty_std", "mdspan_extents_eq", "mdarray_to_mdspan_eq")],
+    "msz": [P + x for x in ("mdspan_size_empty_std", "size_fits_of_fits", "mdspan_extents_eq")],
     "conv": [P + "conv_extent_eq", P + "extents_eq_iff"],
-    "sub": [P + "submdspan_extents_eq"],
+    "sub": [P + "submdspan_extents_eq", P + "submdspan_extents_slices_eq"],
     "span": [P + x for x in ("subspan_eq", "subspanT_eq", "first_eq", "last_eq")],
     "stride_members": [P + "stride_required_span_size_eq", P + "stride_is_exhaustive_eq"],
 }
@@ -357,6 +428,11 @@ def generate(tier, seed):
                     k += 1
                     add("map lay=%s it=%s pat=%s ext=%s ctor=%s form=%s"
                         % (lay, it, pat_str(p), fmt_list(vals), ("dyn", "all")[k % 2], forms_all[k % 3]), "map/%s" % lay)
+            # mdarray constructors (one line per shape and layout)
+            if prod(vals) <= 256:
+                for lay in ("left", "right"):
+                    k += 1
+                    add("mda lay=%s it=%s pat=%s ext=%s val=%d" % (lay, it, pat_str(p), fmt_list(vals), (7, -3, 1)[k % 3]), "mda/%s" % lay)
             # explicit strides: permuted, padded; several draws per shape
             ndraw = (3 if thorough else 1) if r >= 3 else (4 if thorough else 2)
             if r == 0:
@@ -369,16 +445,71 @@ def generate(tier, seed):
                 add("map lay=stride it=%s pat=%s ext=%s ctor=%s form=%s str=%s perm=%s"
                     % (it, pat_str(p), fmt_list(vals), ("dyn", "all")[k % 2], ("array", "span")[k % 2], fmt_list(strs),
                        fmt_list(perm)), "map/stride/r%d" % r)
+                if r == 2:
+                    # the transposed view of a strided mapping (layout_transpose<layout_stride>): same extents and strides
+                    add("map lay=tstride it=%s pat=%s ext=%s ctor=%s form=%s str=%s perm=%s"
+                        % (it, pat_str(p), fmt_list(vals), ("dyn", "all")[k % 2], ("array", "span")[k % 2], fmt_list(strs),
+                           fmt_list(perm)), "map/tstride")
+                if d == 0 and req_stride(vals, strs) <= 256:
+                    add("mda lay=stride it=%s pat=%s ext=%s val=%d str=%s perm=%s"
+                        % (it, pat_str(p), fmt_list(vals), (7, -3, 1)[k % 3], fmt_list(strs), fmt_list(perm)), "mda/stride")
+    # ---- mdspan::size / empty / extents for shapes inside the precondition of the standard (every extent and the SIZE
+    # representable) but outside `Fits`: a zero extent among extents whose product is not representable
+    for it, p in map_type_list(THOROUGH_BUILD)[0]:
+        r = len(p)
+        if r < 2 or any(x >= 0 for x in p):
+            continue
+        big = min(it_max(it), 2 ** 63 - 1)          # the line protocol of the harness carries long long values
+        for zpos in range(r):
+            for fill in (big, big // 2 + 1, 2 if ITS[it][0] >= 32 else 16):
+                vals = [fill if j != zpos else 0 for j in range(r)]
+                for lay in ("left", "right"):
+                    add("msz lay=%s it=%s pat=%s ext=%s" % (lay, it, pat_str(p), fmt_list(vals)), "msz")
+        # and without a zero: the size fits size_type (unsigned) but not index_type
+        if ITS[it][1] and r == 2:
+            a = 2 ** (ITS[it][0] // 2)
+            for lay in ("left", "right"):
+                add("msz lay=%s it=%s pat=%s ext=%s" % (lay, it, pat_str(p), fmt_list([a, a - 1])), "msz")
     # ---- layout_stride::required_span_size / is_exhaustive alone (they were undefined before the fix): a few shapes
     for (p, vals, strs) in [((2, 3), (2, 3), (3, 1)), ((-1, -1), (2, 3), (1, 2)), ((-1, 3, -1), (2, 3, 4), (1, 8, 2))]:
         add("stride_members it=i32 pat=%s ext=%s str=%s" % (pat_str(p), fmt_list(vals), fmt_list(strs)), "stride_members")
-    # ---- submdspan_extents: every keep mask x every dynamic value vector
-    for it, p, m in sub_list():
+    # ---- submdspan_extents: every instantiated slice-kind vector x every dynamic value vector x index-pair bounds
+    # (all lo <= hi <= extent for one pair dimension, sampled for more)
+    for it, p, ks in sub_list():
+        r = len(p)
+        lines = []
         for vals in dyn_choices(rnd, p, True, 0):
             if max(vals + (0,)) > it_max(it):
                 continue
-            keep = [(m >> j) & 1 for j in range(len(p))]
-            add("sub it=%s pat=%s ext=%s keep=%s" % (it, pat_str(p), fmt_list(vals), fmt_list(keep)), "sub/r%d" % len(p))
+            slots = []
+            okv = True
+            for k, v in zip(ks, vals):
+                if k in ("F", "I"):
+                    slots.append([(0, 0)])
+                elif k[0] == "C":
+                    lo, hi = (int(x) for x in k[1:].split("_"))
+                    okv = okv and hi <= v
+                    slots.append([(lo, hi)])
+                elif k[0] == "M":
+                    lo = int(k[1:])
+                    okv = okv and lo <= v
+                    slots.append([(lo, hi) for hi in range(lo, v + 1)])
+                else:
+                    slots.append([(lo, hi) for lo in range(0, v + 1) for hi in range(lo, v + 1)])
+            if not okv:
+                continue
+            combos = list(itertools.product(*slots))
+            cap = 12 if thorough else 4
+            if len(combos) > cap:
+                combos = rnd.sample(combos, cap)
+            for c in combos:
+                lines.append("sub it=%s pat=%s ext=%s sl=%s lo=%s hi=%s" % (it, pat_str(p), fmt_list(vals), ",".join(ks) if ks else "-",
+                                                                          fmt_list([x[0] for x in c]), fmt_list([x[1] for x in c])))
+        cap = 400 if thorough else 120
+        if any(k[0] in "PTAMC" for k in ks) and len(lines) > cap:
+            lines = rnd.sample(lines, cap)
+        for ln in lines:
+            add(ln, "sub/r%d%s" % (r, "/pair" if any(k[0] in "PTAMC" for k in ks) else ""))
     # ---- converting constructor
     for a, b, dp, sp in conv_list(THOROUGH_BUILD)[0]:
         # a position that is static on either side has that value (requires-clause / precondition)
@@ -396,7 +527,44 @@ def generate(tier, seed):
                 for c in [-1] + list(range(0, n - o + 1)):
                     for ct in (0, 1):
                         add("span n=%d se=%d op=subspan ct=%d off=%d cnt=%d" % (n, se, ct, o, c), "span/subspan")
+    if PROBE_RESULT:
+        dist["compile_probes"] = dict(PROBE_RESULT)
     return cases, False, dist
+
+
+def _probe(code):
+    """does this snippet compile against the tree under test? (a construct whose absence would stop the harness from compiling
+    is switched by a macro, so that its loss is reported as a violation on a case line, not as a build failure)"""
+    import subprocess
+    import lib
+    p = subprocess.run([lib.CXX, "-std=c++20", "-fsyntax-only", "-I", os.path.join(lib.REPO, "include"), "-x", "c++", "-"],
+                       input=code, text=True, stdout=subprocess.PIPE, stderr=subprocess.PIPE)
+    return int(p.returncode == 0)
+
+
+PROBES = {
+    # submdspan_extents with a pair of integral constants over a static extent (F-C19-submdspan-static-pair-type)
+    "C19_HAS_SUB_STATIC_PAIR": "#include <etl/mdspan.hpp>\n#include <etl/utility.hpp>\n#include <etl/type_traits.hpp>\n"
+                               "auto f(etl::extents<int, 5> e) { return etl::submdspan_extents(e, etl::pair<etl::integral_constant<int, 1>, "
+                               "etl::integral_constant<int, 3>>{}); }\n",
+    # submdspan_extents with run-time pair slices builds the new extents from one value per kept dimension
+    # (F-C19-submdspan-pair-extent): before the fix this combination had no matching extents constructor
+    "C19_HAS_SUB_PAIR": "#include <etl/mdspan.hpp>\n#include <etl/utility.hpp>\n"
+                        "auto f(etl::dextents<int, 3> e) { return etl::submdspan_extents(e, etl::full_extent, etl::pair<int, int>{0, 1}, "
+                        "etl::pair<int, int>{0, 1}); }\n",
+    # class template argument deduction mdspan(mdarray) (F-C19-mdspan-mdarray-guide)
+    "C19_HAS_MDSPAN_CTAD": "#include <etl/mdarray.hpp>\n#include <etl/vector.hpp>\n"
+                           "using A = etl::mdarray<int, etl::extents<int, 2>, etl::layout_right, etl::static_vector<int, 4>>;\n"
+                           "int f(A& a) { etl::mdspan m(a); return m(1); }\n",
+}
+PROBE_RESULT = {}
+
+
+def _probe_flags():
+    if not PROBE_RESULT:
+        for k, v in PROBES.items():
+            PROBE_RESULT[k] = _probe(v)
+    return ["-D%s=%d" % (k, v) for k, v in sorted(PROBE_RESULT.items())]
 
 
 BASE_FLAGS = list(HARNESS_FLAGS)
@@ -410,7 +578,7 @@ def _build_parts():
     import concurrent.futures as cf
     import lib
     os.makedirs(lib.BUILD, exist_ok=True)
-    flags = list(lib.CXXFLAGS) + BASE_FLAGS
+    flags = list(lib.CXXFLAGS) + BASE_FLAGS + _probe_flags()
 
     def one(k):
         out = os.path.join(lib.BUILD, "c19_part%s.o" % str(k).replace("-", "m"))
@@ -447,7 +615,11 @@ def nontrivial(case, rows):
     if ln.startswith("ext"):
         return "pat=[]" not in ln
     if ln.startswith("sub"):
-        return "1" in ln.split("keep=")[1]
+        return "rk=0/" not in r.spec
+    if ln.startswith("mda"):
+        return "cm=0/" not in r.spec
+    if ln.startswith("msz"):
+        return True
     if ln.startswith("conv"):
         return "pat=[]" not in ln and "-1" in ln.split("pat=")[1].split(" ")[0]
     if ln.startswith("span"):
@@ -470,48 +642,64 @@ TECHNIQUE = ("Lean 4 proof: hand model of extents / layout mappings / span arith
              "in-span and injective for every rank and extent; model tied to the code by an exhaustive small-scope "
              "correspondence run over template instantiations")
 LEVEL_TEXT = ("extents (constructors, converting constructor, extent, operator==, fwd/rev products), layout_left / layout_right / "
-              "layout_stride / layout_transpose mappings (operator(), stride, required_span_size, is_exhaustive, operator== "
-              "and the converting constructors of layout_stride), submdspan_extents for full_extent / index slices, mdspan / "
-              "mdarray element access, size, empty, "
-              "operator[](array|span), to_mdspan, container_size and span first/last/subspan are modelled clause by clause "
+              "layout_stride / layout_transpose mappings (operator(), stride, required_span_size, is_exhaustive and the other "
+              "five observers, operator== and the converting constructors of layout_stride; layout_transpose over layout_left, "
+              "layout_right and layout_stride), submdspan_extents for full_extent / index / index-pair slices, mdspan / "
+              "mdarray element access, extents(), size, empty, operator[](array|span), to_mdspan, container_size, the mdarray "
+              "constructors (mapping | extents | exts..., with value, container const&, container&&; size-constructible and "
+              "etl::array containers) and span first/last/subspan are modelled clause by clause "
               "with checked array accesses and explicit index_type casts. Lean 4 proves for every rank, every extents vector "
               "and every static/dynamic pattern (no bound) that the model never leaves an array, that the offset of an "
               "in-range multi-index equals the closed form (mixed radix for left, right, transposed; sum of index*stride for "
-              "explicit strides), lies below required_span_size (product of the extents; 1 + sum (e_k-1)*s_k for strides, 0 "
+              "explicit strides and for the transposed strided mapping), lies below required_span_size (product of the "
+              "extents; 1 + sum (e_k-1)*s_k for strides, 0 "
               "for an empty index space) and is distinct for distinct indices (explicit strides under the standard's "
               "uniqueness precondition), that strides are the partial products, that layout_stride::is_exhaustive holds "
               "exactly when the strides are a permutation of a contiguous layout and exactly when every offset below "
-              "required_span_size is hit, that mdspan/mdarray access over all four layouts reads exactly buffer[offset], and "
-              "that submdspan_extents keeps exactly the kept dimensions with their static extents, and that span "
+              "required_span_size is hit, that the observers of a transposed mapping are those of the nested mapping, that "
+              "they are correct for the transposed view (unique, exhaustive, strided for layout_left/right) and that a "
+              "transposed strided mapping is exhaustive iff the nested one is, that mdspan/mdarray access over all layouts "
+              "reads exactly buffer[offset], that after each mdarray constructor the container holds required_span_size "
+              "(etl::array: its static size) value-initialised elements / copies of the value / the given container's contents "
+              "and operator() reads the element at the closed-form offset, that size() is the exact product of the extents "
+              "and empty() holds iff an extent is 0 under the standard's precondition alone (size representable in size_type), "
+              "that submdspan_extents keeps exactly the kept dimensions with their static extents and gives an index pair "
+              "the extent hi - lo (static for a pair of integral constants), and that span "
               "first/last/subspan denote (l.drop off).take cnt with the standard's static extent. The model is "
               "tied to the current source on every run by executing model and implementation on the same cases (every "
               "pattern x extents 0..4 for rank 0-3, rank 4 by masks, eight index types, padded/permuted strides, all span "
               "argument pairs) under ASan/UBSan.")
 LEVEL_NOTE = ("Trusted: Lean kernel + propext/Classical.choice/Quot.sound; the hand model's fidelity outside the explored "
               "inputs; g++-12/ASan; the C-array enumeration oracle and std::span for spec validation. Theorems about the "
-              "wrapped index_type arithmetic assume the representability precondition `Fits`: the product of EVERY run of "
+              "wrapped index_type arithmetic of the MAPPINGS (strides, offsets, required_span_size) assume the representability "
+              "precondition `Fits`: the product of EVERY run of "
               "consecutive extents is representable in index_type. For shapes without a zero extent this is the standard's "
               "precondition (size of the index space representable); for shapes WITH a zero extent it is stronger (the "
               "standard only needs size 0, while fwd/rev products of the other extents may wrap in the code): such shapes "
-              "with unrepresentable partial products are outside the theorems and the generator. `FitsStride` (layout_stride) "
+              "have no in-range multi-index, so the offset theorems are vacuous there; size() / empty() / extents() ARE "
+              "proved for them (`SizeFits`, mdspan_size_empty_std) and exercised (`msz` lines); stride() and "
+              "required_span_size() of such shapes are outside theorems and generator. `FitsStride` (layout_stride) "
               "asks for every extent, every stride and required_span_size representable, as [mdspan.layout.stride.cons]. "
               "Span: the model returns a precondition error for Count > size() where the code has no run-time check. "
+              "mdarray constructors: proved for the two container kinds the harness uses (constructible from size_t / "
+              "(size_t, value), and etl::array), under the precondition that the container can hold required_span_size() "
+              "elements; the moved-from state of a container&& argument is not described. submdspan_extents with a "
+              "strided_slice is a static_assert in the library and submdspan / submdspan_mapping are commented out: nothing "
+              "to verify there. "
               "Members listed in "
               "coverage.correspondence_only are compared on every run but have no theorem.")
 CORRESPONDENCE_ONLY = [
-    "layout_transpose::mapping::is_always_exhaustive / is_exhaustive / is_unique / is_strided (and the same members of "
-    "mdspan over it): they forward to the constant members of the nested layout_left / layout_right mapping; observed by "
-    "the harness (exh= field of the transposed lines), not modelled beyond the constant",
-    "submdspan_extents with index-pair slices (run-time bounds) and strided_slice specifiers: the former does not compile "
-    "(the builder appends no value for the new dynamic extent: constructor arity), the latter is a static_assert in the "
-    "source; neither is modelled or exercised (submdspan.hpp itself is commented out in the library); full_extent and "
-    "index slices are modelled, exercised (`sub` lines) and proved (submdspan_extents_eq)",
-    "mdarray constructors other than mdarray(mapping) with a size-constructible container: (extents, value), "
-    "(mapping, value), (extents | mapping, container const& | container&&), the array-container branch (`return {}` / "
-    "value_to_array), the pack and extents forms, swap, extract_container and the mdspan conversion operators are neither "
-    "modelled nor exercised",
-    "mdspan::extents() and mdarray::size(): observed by the harness and folded into the md= / mda= fields (extents() "
-    "through extents::operator==, which has the theorem extents_eq_iff)",
+    "mdarray copy / move construction, copy assignment, swap, extract_container, mapping(), stride(r), extent(r), "
+    "operator[](array|span), the conversion operators to mdspan and the deduction guide mdspan(mdarray): exercised on every "
+    "`mda` line against the pointer-arithmetic oracle (folded into the misc= flag), not modelled",
+    "the forwards of the six observers by mdspan and mdarray (one-line members): compared with the mapping's own answers on "
+    "every map line (last bit of obs=); the theorems are about the mapping's observers",
+    "mdspan constructors other than (pointer, mapping): (pointer, exts...) / (pointer, span) / (pointer, array) with rank() and "
+    "rank_dynamic() values, (pointer, extents), (pointer, mapping, accessor), the converting constructor (const element type, "
+    "dextents and back) and the default constructor are exercised on every layout_left / layout_right map line (same "
+    "data_handle, mapping and extents as the (pointer, mapping) object; folded into md=); they compose the extents "
+    "constructors and the mapping constructor, which have theorems (extents_ctor_eq, conv_extent_eq, "
+    "ctor_mapping_closed_form), and have no model function of their own",
 ]
 
 if __name__ == "__main__":
